@@ -1,6 +1,7 @@
 (* Pinned statements for C15: compiled on every check run. A statement weakened in Props/ fails here. *)
 From Coq Require Import List String Permutation.
 From TS Require Import Model.Str Model.Outcome Model.Unicode Model.Syntax Model.Attrs Model.Types Model.Parse Model.Rename.
+From TS Require Import Model.TopsortAlgo Model.Topsort Model.Lang.Common.
 From TS Require Import Model.Lang.TypeScript Model.Lang.Kotlin Model.Lang.Swift Model.Lang.Scala Model.Lang.Go Model.Lang.Python.
 From TS Require Import Spec.Lexers Spec.C15Spec Spec.C15Render.
 From TS Require Proofs.C15 Proofs.C15_Render Proofs.C15_Kotlin Proofs.C15_Go Proofs.C15_Swift Proofs.C15_Python Proofs.C15_TypeScript.
@@ -196,3 +197,19 @@ Goal forall (cfg : kt_config),
     forallb safe_kt (c15_item_docs_helpers_first it).
 Proof. exact Props.C15.C15_kt_item. Qed.
 Print Assumptions Props.C15.C15_kt_item.
+Goal forall (uc : unicode) (cfg : ts_config),
+  c15_mappings_plain C15ts (ts_type_mappings cfg) = true ->
+  forall pd text,
+  c15_no_star (ts_version cfg) = true ->
+  forallb (c15_item_plain C15ts TypeScript (fun n => str_to_uppercase uc (to_snake_case uc n))) (items_of pd) = true ->
+  forallb c15_ts_item_keys_ok (items_of pd) = true ->
+  ts_generate uc cfg pd = Ok text ->
+  exists items trailer parts,
+    topsort (items_of pd) = Ok items /\ Permutation items (items_of pd) /\
+    (trailer = [] \/ trailer = c15_ts_trailer_docs) /\
+    text = text_of (c15_file_pieces C15ts parts) /\
+    docs_of (c15_file_pieces C15ts parts) = flat_map c15_item_docs items ++ trailer /\
+    c15_contained C15ts LCode (mark (c15_file_pieces C15ts parts)) =
+    forallb safe_ts (flat_map c15_item_docs (items_of pd)).
+Proof. exact Props.C15.C15_ts_file. Qed.
+Print Assumptions Props.C15.C15_ts_file.
